@@ -22,7 +22,11 @@ def run(rep, tier, seed):
     rep.cov["traces_validated_against_impl"] += len(recs)
     rep.cov["reference_logs"] = len([r for r in recs if r["kind"] == "ref"])
     rep.cov["samples"].append({k: v for k, v in recs[len(recs) // 3].items() if k not in ("parse",)})
-    SC.model_and_replay(rep, "r", [s for s in SC.read_grid(tier) if s["params"]["NREADS"] < 0], "c05_r_" + tier,
+    # + a complete file with header-only objects (declared size = the 16-byte base header, unknown and known type):
+    # they are skipped / delivered like any other object and the counters go on to the end of the file
+    extra = [dict(name="r_hdronly", params=dict(B=64, Q=2, NREADS=-1),
+                  items=[SC.can(1), ["unk", 200, 16], SC.can(2), SC.lobj(1, 16, 16), SC.can(3)], conts=[176])]
+    SC.model_and_replay(rep, "r", [s for s in SC.read_grid(tier) if s["params"]["NREADS"] < 0] + extra, "c05_r_" + tier,
                         ["StatsExact"], liveness=False, key="read")
     SC.model_and_replay(rep, "w", SC.write_grid(tier), "c05_w_" + tier, ["StatsExact"], liveness=False, key="write")
     rep.cov["distinct_nontrivial"] = len(recs) + sum(m["edges"] for m in rep.cov.get("m1", []))
